@@ -8,7 +8,7 @@ import sys
 import time
 
 VERIF = os.path.dirname(os.path.dirname(os.path.abspath(__file__)))
-REPO = "/repo"
+REPO = os.environ.get("VERIF_REPO", "/repo")   # mutant validation runs a copy of /verif against a scratch worktree
 CACHE = os.path.join(VERIF, ".cache")
 TARGET = os.path.join(CACHE, "target")
 WORK = os.path.join(VERIF, ".work")
@@ -31,6 +31,22 @@ BUILD_ENV = {
 
 class Inconclusive(Exception):
     pass
+
+
+class CodePanic(Exception):
+    """the code under test panicked inside a harness process (location inside the repository's sources)"""
+
+    def __init__(self, location, message):
+        Exception.__init__(self, "%s: %s" % (location, message))
+        self.location, self.message = location, message
+
+
+def panic_in_repo(stderr_text):
+    import re
+    m = re.search(r"panicked at ([^\s:]+):(\d+):\d+:\n([^\n]*)", stderr_text)
+    if m and m.group(1).startswith(REPO.rstrip("/") + "/"):
+        return m.group(1)[len(REPO.rstrip("/")) + 1:], m.group(3)[:200]
+    return None
 
 
 def log(*a):
@@ -112,6 +128,9 @@ def run_vh_shards(sub, shards, base_args, wd, timeout, seed, extra_env=None):
         if p.returncode != 0 or not os.path.exists(out):
             tail = open(os.path.join(wd, "err_%d.log" % i)).read()[-3000:]
             kill_all()
+            loc = panic_in_repo(tail)
+            if loc:
+                raise CodePanic(loc[0], loc[1])
             raise Inconclusive("vh %s shard %d failed (exit %s): %s" % (sub, i, p.returncode, tail))
         reports.append(json.load(open(out)))
     return reports
